@@ -254,6 +254,21 @@ func buildBase(shape string, n int, duty core.Duty, sender int64) base {
 			just = append(just, signed(qbft.MsgPrepare, duty, int64(i), 2, hA[:], 0, zero32, keys[i]))
 		}
 		values = []*anypb.Any{vA}
+	case "prepare_carrying_prepares", "commit_carrying_commits":
+		// message types that need no justification may still carry sub-messages: the state machine counts every
+		// buffered sub-message as its author's vote, so they are checked like any other (honest members do not send
+		// these; validly signed, they are well-formed)
+		typ := qbft.MsgPrepare
+		if shape == "commit_carrying_commits" {
+			typ = qbft.MsgCommit
+		}
+		msg = signed(typ, duty, sender, 2, hA[:], 0, zero32, keys[sender])
+		for i := 0; i < q; i++ {
+			if int64(i) != sender {
+				just = append(just, signed(typ, duty, int64(i), 2, hA[:], 0, zero32, keys[i]))
+			}
+		}
+		values = []*anypb.Any{vA}
 	case "decided":
 		msg = signed(qbft.MsgDecided, duty, sender, 2, hB[:], 0, zero32, keys[sender])
 		for i := 0; i < q; i++ {
@@ -266,7 +281,7 @@ func buildBase(shape string, n int, duty core.Duty, sender int64) base {
 	return base{shape: shape, n: n, duty: duty, msg: &pbv1.QBFTConsensusMsg{Msg: msg, Justification: just, Values: values}}
 }
 
-var shapes = []string{"preprepare_r1", "prepare", "commit", "roundchange_null", "roundchange_prepared", "roundchange_prepared_bare", "preprepare_justified", "decided"}
+var shapes = []string{"preprepare_r1", "prepare", "commit", "roundchange_null", "roundchange_prepared", "roundchange_prepared_bare", "preprepare_justified", "decided", "prepare_carrying_prepares", "commit_carrying_commits"}
 var leafFields = []string{"type", "duty.slot", "duty.type", "peer_idx", "round", "prepared_round", "value_hash", "prepared_value_hash", "signature"}
 var leafKinds = []string{"plus1", "bitflip", "swap"}
 
